@@ -283,7 +283,7 @@ int main(int argc, char** argv) {
     else if (t[0] == "restart") { newengine(usedb); started = true; printf("restart\n"); }
     else if (t[0] == "fresh") {
       // oracle: a brand-new engine with no history, current rules and external state
-      auto saved = g_defs; g_defs = g_pending; g_quiet = true; g_freshvals.clear();
+      auto saved = g_defs; g_defs = g_pending; g_quiet = true; g_freshvals.clear(); g_cancel_iter = g_cancel_cb = -1;
       { Del d2; BuildEngine e2(d2); BuildEngine* se = g_engine; g_engine = &e2; Sched ss = g_sched; g_sched = SYNC;
         g_in_build = true; auto& v = e2.build(kname(atoi(t[1].c_str()))); g_in_build = false; g_sched = ss; g_engine = se;
         g_quiet = false; printf("fresh %s %s\n", t[1].c_str(), vs(v).c_str()); }
